@@ -10,7 +10,7 @@ CLAIMS = {
              'upper (all), Frechet lower + 2-increasing (Frank), row independence of the whole method; tied to the code '
              'by translation validation at Float against the real methods.',
         note='trusts the AST->Lean translator (validated numerically every run) and the real-number reading of binary64; '
-             'partial: 2-increasing/Frechet-lower for Clayton and Gumbel, theta-ordering (search-supported), Gumbel at u=0 or v=0',
+             'partial: 2-increasing/Frechet-lower for Clayton and Gumbel, theta-ordering (search-supported), Gumbel at u=0 or v=0; Props/C06b: continuous extension by 0 at the lower boundary for Gumbel and Clayton (limits), the formula value at 0 being a totalisation artefact',
         tech='Lean 4 proof over a translator-regenerated model + translation validation', ref='5 C06'),
     'C07': dict(
         text='Lean 4 HasDerivAt theorems C -> partial_derivative -> probability_density for the three regenerated '
@@ -23,7 +23,7 @@ CLAIMS = {
         text='Lean 4 theorems: Clayton closed-form inverse inverts h, range, strict monotonicity, element-wise on every '
              'batch; uniqueness from strict monotonicity of h; generic Brent loop correct and element-wise given a root '
              'finder that returns a root; existence+uniqueness of the root for Frank.',
-        note='brentq is an external hypothesis; bracket validity is partial and is a recorded finding for Gumbel',
+        note='brentq is an external hypothesis; bracket validity is partial and is a recorded finding for Gumbel; Props/C08b: Frank bracket clause proved on the whole domain; exact Gumbel below-bracket region with a kernel-checked witness (the recorded finding)',
         tech='Lean 4 proof over a translator-regenerated model + correspondence with the real percent_point', ref='5 C08'),
     'C09': dict(
         text='Lean 4 theorems about Bivariate.sample regenerated from the source: tau guard before any draw, shape (n rows, '
@@ -41,7 +41,7 @@ CLAIMS = {
              'families (interval integrals, no external hypothesis for Clayton/Gumbel); tied by running the fit model at Float '
              'on the quantities the real fit derives from data.',
         note='Frank solver (least_squares, quad) and scipy kendalltau are external hypotheses, cross-checked every run; '
-             'Frank near tau=0 is a recorded finding',
+             'Frank near tau=0 is a recorded finding; Props/C10c: ideal Frank calibration odd, strictly monotone, range (-1,1), existence and uniqueness of theta; exact epsilon-shift of the code\'s residual and the mechanism of the recorded near-zero finding',
         tech='Lean 4 proof over generated calibrations + hand model of fit with correspondence', ref='5 C10'),
     'C18': dict(
         text='Lean 4 theorems about faithful models of bisect and chandrupatla (any number of lanes, any maxiter): bisect '
@@ -62,7 +62,7 @@ CLAIMS = {
              'diagonal, labels, entry = Pearson of the normal scores; clip bounds, ridge constant and threshold regenerated '
              'from the source; tied bit-for-bit to pandas corr and entrywise to model.correlation / to_dict.',
         note='np.linalg.cond, scipy norm.ppf and the marginal CDFs are external symbols; finiteness and that sampling/density '
-             'work after regularisation are checked on the real code only; degenerate marginal fits are a recorded finding',
+             'work after regularisation are checked on the real code only; degenerate marginal fits are a recorded finding; Props/C02b: exact diagonal formula and iff for a unit diagonal, entry finiteness given IEEE unit facts, density defined after the ridge',
         tech='Lean 4 proof (Mathlib matrices) over a hand model + generated constants, correspondence with pandas/real fit',
         ref='5 C02'),
     'C12': dict(
@@ -87,7 +87,7 @@ CLAIMS = {
              'deterministic and global-preserving; soundness of the free-term model used by the driver; tied by comparing '
              'predicted equalities/separations of state and output digests on random histories over all sampler classes.',
         note='MT19937 get/set_state exactness and stream quality are trusted; the decorator table is introspected by the '
-             'harness; the former Univariate wrapper defect is kept as a counter-example theorem about the as-found table',
+             'harness; the former Univariate wrapper defect is kept as a counter-example theorem about the as-found table; Props/C15b: wrapper clause iff decorated (repaired vs as-found table), dataset row counts from a shape model tied every run by corr:dataset-shape',
         tech='Lean 4 proof over an abstract generator-state machine + digest-pattern correspondence', ref='5 C15'),
     'C05': dict(
         text='Lean 4 theorems for any candidate list over any bounded linear order of KS values (NaN and failures explicit): '
@@ -107,7 +107,7 @@ CLAIMS = {
              'unfitted object configured from the stored constructor arguments (table regenerated from the AST); tied by '
              'random fit histories on every class and a two-sentinel np.empty differential for uninitialised reads.',
         note='external fitters are abstract functions of (class, options, data); uninitialised-memory clauses are established '
-             'dynamically (sentinel differential), not by a Lean data-flow theorem here (see C17); several recorded findings',
+             'dynamically (sentinel differential), not by a Lean data-flow theorem here (see C17); several recorded findings; Props/C19b: complete case analyses replace the hypotheses of the partial theorems (exact refit-purity characterisation, partition of all unfitted entry points, get_instance classes)',
         tech='Lean 4 proof over a hand-written life-cycle model with as-found/repaired variants + history correspondence',
         ref='5 C19'),
     'C04': dict(
@@ -118,7 +118,7 @@ CLAIMS = {
              'gaussian_kde(dataset, bw_method, weights) of the stored dataset (or a resample), executable kernel estimate '
              'with Scott/Silverman/scalar factors, non-negative and integrating to 1.',
         note='DKW-style closeness of scipy optimiser output is statistical: thorough search only (exact binomial rule at 1e-9); '
-             'numpy pairwise summation vs left fold compared within 4n ulp; two recorded findings',
+             'numpy pairwise summation vs left fold compared within 4n ulp; two recorded findings; Props/C04b: exact feasibility characterisation of the TruncatedGaussian box (the former partial clause) with a counterexample to the unrestricted reading',
         tech='Lean 4 proof over translator-regenerated estimators + bit-exact param-map correspondence', ref='5 C04'),
     'C11': dict(
         text='Lean 4 theorems about select_copula: the result is one of the candidates and is Frank for tau <= 0; every '
@@ -148,7 +148,7 @@ CLAIMS = {
              'from_dict key sets agree for bivariate/Gaussian/vine/tree/edge, vine parents deserialised as copies; tied by '
              'behavioural comparison (to_dict, pdf/cdf/ppf, seeded sample streams) through dict, JSON and pickle.',
         note='pickle is not modelled (behavioural tie only); KDE bw_method/weights not serialised and two edge cases are '
-             'recorded findings; get_likelihood compared only where reproducible',
+             'recorded findings; get_likelihood compared only where reproducible; Props/C14b: to_dict of the restored model equals the original\'s for any number of trips; vine parents re-linked by value (identity provably not preserved)',
         tech='Lean 4 proof over a hand-written value-grammar model + generated key tables, behavioural correspondence',
         ref='5 C14'),
     'C16': dict(
